@@ -96,7 +96,7 @@ func runServiceRules(c *Ctx) {
 			continue
 		}
 		valExpr := b.bind(fs.st.Val)
-		okVal := strings.Contains(valExpr, "parseTime(col:date")
+		okVal := strings.Contains(valExpr, "(col:date") && b.headClass(valExpr) == "(string)→(time.Time,error)"
 		guard := ""
 		for _, ce := range dominatingConds(fs.st.Block()) {
 			cond, val := ce.Cond, ce.Val
@@ -212,7 +212,7 @@ func isDateVal(v ssa.Value, fn *ssa.Function) bool {
 	for i := 0; i < 6 && v != nil; i++ {
 		switch x := v.(type) {
 		case *ssa.Extract:
-			if call, ok := x.Tuple.(*ssa.Call); ok && x.Index == 0 && strings.HasSuffix(calleeName(call), ".parseTime") {
+			if call, ok := x.Tuple.(*ssa.Call); ok && x.Index == 0 && call.Call.StaticCallee() != nil && fnPkgPath(call.Call.StaticCallee()) == modPath && sigClass(call.Call.StaticCallee()) == "(string)→(time.Time,error)" {
 				if rd, ok := call.Call.Args[0].(*ssa.Call); ok {
 					if ci, _ := resolveColumn(rd.Call.Args[0], 0); ci != nil && ci.name == "date" {
 						return true
@@ -291,7 +291,7 @@ func runAlertRules(c *Ctx) {
 						subj["StopID"] = true
 					case strings.HasSuffix(s, ".RouteType)") && a.konst == strings.TrimPrefix(c.constOf("gtfs", "RouteType_Unknown"), "const:") && !a.neg:
 						subj["RouteType"] = true
-					case a.opaque && a.neg && strings.Contains(s, "tripIDUniquelyIdentifiesTrip") && strings.Contains(s, ".TripID"):
+					case a.opaque && a.neg && strings.Contains(s, "call:") && strings.Contains(s, ".TripID"):
 						subj["TripID"] = true
 					}
 				}
